@@ -1,6 +1,6 @@
 use crate::util::*;
 use engeom::airfoil::helpers::{find_tmax_circle, reverse_inscribed_circles, OrientedCircles};
-use engeom::airfoil::{AirfoilGeometry, CamberOrient, ConstRadiusEdge, ConvergeTangentEdge, DirectionFwd, EdgeGeometry, EdgeLocate, FaceOrient, FitRadiusEdge,
+use engeom::airfoil::{AfGage, AirfoilGeometry, CamberOrient, ConstRadiusEdge, ConvergeTangentEdge, DirectionFwd, EdgeGeometry, EdgeLocate, FaceOrient, FitRadiusEdge,
                       InscribedCircle, IntersectEdge, OpenEdge, OpenIntersectGap, RansacRadiusEdge, TMaxFwd, TraceToMaxCurvature};
 use engeom::geom2::polyline2::SpanningRay;
 use engeom::geom2::Line2;
@@ -45,10 +45,20 @@ pub fn run(k: &str, c: &Value) -> Value {
             let cv = |c: &Option<Curve2>| c.as_ref().map(|c| json!({"points": c.points().iter().map(hp2).collect::<Vec<_>>(), "length": hx(c.length())}));
             let tmax = g.find_tmax();
             let thk = g.get_thickness_max().ok().map(|d| hx(d.value()));
+            let gauges: Vec<Value> = c["gauges"].as_array().map(|a| a.iter().map(|q| {
+                let x = fx(&q[1]);
+                let gage = if q[0].as_str() == Some("camber") { AfGage::OnCamber(x) } else { AfGage::Radius(x) };
+                match std::panic::catch_unwind(std::panic::AssertUnwindSafe(|| g.get_thickness(gage))) {
+                    Ok(Ok(d)) => json!({"a": hp2(&d.a), "b": hp2(&d.b), "value": hx(d.value())}),
+                    Ok(Err(e)) => json!({"err": format!("{}", e)}),
+                    Err(_) => json!({"panic": true}),
+                }
+            }).collect()).unwrap_or_default();
             json!({"section": section.points().iter().map(hp2).collect::<Vec<_>>(), "perimeter": hx(section.length()),
                    "stations": g.stations.iter().map(circ).collect::<Vec<_>>(), "le": edge(&g.leading_edge), "te": edge(&g.trailing_edge),
                    "camber": g.camber.points().iter().map(hp2).collect::<Vec<_>>(), "upper": cv(&g.upper), "lower": cv(&g.lower),
-                   "tmax": circ(tmax), "thk_max": thk})
+                   "tmax": circ(tmax), "thk_max": thk, "gauges": gauges,
+                   "camber_length": hx(g.camber.length())})
         }
         "c10.oriented" => {
             // the container logic on synthetic stations: ops push / last / take, and reverse_inscribed_circles, find_tmax_circle
